@@ -749,7 +749,10 @@ SPEC = {
             'non-empty = it returns the document still encrypted and decrypt(user or owner password) follows), saved and loaded in both '
             'formats: model (Model/LoaderEnc.v + LoaderCrypt.v) = save_to + load_mem + decrypt, direct verdict = what comes back is the plain '
             'document in the property sense; the same with a damaged encryption dictionary / ciphertext (error classes, no verdict); files '
-            'saved from encrypted documents, as they are and damaged (load)',
+            'saved from encrypted documents, as they are and damaged (load).  DOCUMENTS OBTAINED BY LOADING (rt-hist): files with several '
+            'cross-reference sections (documents saved by lopdf and updated 1-3 times through IncrementalDocument; 2-5 revisions appended by hand, '
+            'table / stream sections mixed, freed objects, generation bumps) are loaded and the loaded document goes through save (both formats) '
+            '-> load -> compare -> second cycle, model and direct verdict as for generated documents',
     'extra_trusted': ['C01: reals are compared as f32 bit patterns (exact decimal->f32 rounding in lib/vlib.py); '
                       'f32 Display/FromStr are Rust std (assumed: from_str(to_string x) = x, Display is shortest round-trip without exponent)'],
     'partial_note': 'PROVED (C01_full): for every document of the domain outside the known class, both cross-reference formats: load (save d) = '
